@@ -29,8 +29,9 @@ Open Scope Z_scope.
 Definition chan := N.
 Definition oq := option Q.          (* None = NaN *)
 
-Definition oadd (a : oq) (b : Q) : oq := match a with Some x => Some (x + b)%Q | None => None end.
-Definition omul (a : oq) (b : Q) : oq := match a with Some x => Some (x * b)%Q | None => None end.
+(* results of voltage arithmetic are kept as reduced fractions, so that equal voltages are equal terms *)
+Definition oadd (a : oq) (b : Q) : oq := match a with Some x => Some (Qred (x + b)) | None => None end.
+Definition omul (a : oq) (b : Q) : oq := match a with Some x => Some (Qred (x * b)) | None => None end.
 
 Fixpoint alookup {A} (c : chan) (l : list (chan * A)) : option A :=
   match l with
@@ -51,7 +52,7 @@ Inductive trafo :=
 Fixpoint dot (row : list Q) (vals : list oq) : oq :=
   match row, vals with
   | [], [] => Some 0%Q
-  | a :: r, Some v :: vs => match dot r vs with Some s => Some (a * v + s)%Q | None => None end
+  | a :: r, Some v :: vs => match dot r vs with Some s => Some (Qred (a * v + s)) | None => None end
   | _, _ => None                      (* a NaN input makes every output of the matrix product NaN *)
   end.
 
@@ -70,7 +71,8 @@ Definition tr_apply (t : trafo) (f : chan -> oq) (c : chan) : oq :=
   | TLinear ins outs mat =>
       match index_of c outs with
       | Some i => dot (nth i mat []) (map f ins)
-      | None => f c
+      | None => if cmem c ins then None      (* consumed input: not an output channel (the code raises KeyError) *)
+                else f c                      (* forwarded *)
       end
   end.
 
@@ -185,17 +187,20 @@ Fixpoint all_const (chs : list (chan * chdef)) : option (list (chan * oq)) :=
   | (c, CConst v) :: r => option_map (cons (c, v)) (all_const r)
   | (_, CTable _) :: _ => None
   end.
-Fixpoint cvd (w : wf) : option (list (chan * oq)) :=
+(* RepetitionWaveform.constant_value_dict delegates to its body, but from_repetition_count never builds a
+   RepetitionWaveform over a constant body, so that delegation is unreachable here and WRep answers None *)
+Definition cvd (w : wf) : option (list (chan * oq)) :=
   match w with
   | WAtom _ chs => all_const chs
-  | WRep b _ => cvd b
-  | WSeq _ | WTrans _ _ | WRev _ => None
+  | WRep _ _ | WSeq _ | WTrans _ _ | WRev _ => None
   end.
 
 Definition mk_const (d : Z) (vals : list (chan * oq)) : wf := WAtom d (map (fun cv => (fst cv, CConst (snd cv))) vals).
 
+(* equality of (reduced) voltages as terms; Python compares the float values *)
+Definition q_eqb (x y : Q) : bool := (Qnum x =? Qnum y) && Pos.eqb (Qden x) (Qden y).
 Definition oq_eqb (a b : oq) : bool :=
-  match a, b with Some x, Some y => Qeq_bool x y | None, None => true | _, _ => false end.
+  match a, b with Some x, Some y => q_eqb x y | None, None => true | _, _ => false end.
 Definition dict_sub (a b : list (chan * oq)) : bool :=
   forallb (fun cv => match alookup (fst cv) b with Some v => oq_eqb (snd cv) v | None => false end) a.
 Definition dict_eqb (a b : list (chan * oq)) : bool := dict_sub a b && dict_sub b a.
@@ -218,13 +223,10 @@ Fixpoint seq_const (cv : option (list (chan * oq))) (ws : list wf) : option (lis
   | w :: r =>
       match cv with
       | None => None
-      | Some vals =>
-          match vals with
-          | [] => seq_const cv r          (* `if constant_values and ...`: an empty dict is never reset *)
-          | _ => match cvd w with
-                 | Some v2 => if dict_eqb vals v2 then seq_const cv r else None
-                 | None => None
-                 end
+      | Some vals =>            (* (an empty dict is never reset by the code; waveforms always have a channel) *)
+          match cvd w with
+          | Some v2 => if dict_eqb vals v2 then seq_const cv r else None
+          | None => None
           end
       end
   end.
